@@ -41,7 +41,7 @@ func runC02(e *core.Env) {
 			today = obs.DSTDates[r.Intn(len(obs.DSTDates))]
 		}
 		nowCase := i%4 == 0
-		o := gen.Opts{MaxRecs: 6, MinRecs: 1, MaxEntries: 6, Hostile: r.Chance(1, 3), OpenRanges: 1, Tags: r.Intn(2), MaxHours: r.PickInt(30, 30, 1000000), Unicode: r.Chance(1, 4), LookAlikes: r.Chance(1, 2), TrailingBlank: r.Chance(1, 3)}
+		o := gen.Opts{MaxRecs: 6, MinRecs: 1, MaxEntries: 6, Hostile: r.Chance(1, 3), OpenRanges: 1, Tags: r.Intn(2), MaxHours: r.PickInt(30, 30, 1000000, 40000000, 1<<36), Unicode: r.Chance(1, 4), LookAlikes: r.Chance(1, 2), TrailingBlank: r.Chance(1, 3)}
 		if nowCase {
 			o.Near, o.NearSpread = &today, 2
 		}
